@@ -357,11 +357,71 @@ def scen_async_getrecord(cfg):
     return scenario
 
 
+def scen_async_skipped(cfg):
+    """stopping: once the user stops stepping, the supervisor's pending steps return `_SkippedSteps`; the record must hold the executed steps
+    plus the one pending step, whatever the record settings are (in particular with output recording off)"""
+    from props.c06 import FakeFuture
+    from vlib import asyncsym
+
+    def scenario(V):
+        import rex.asynchronous as A
+        old_future = A.Future
+        A.Future = FakeFuture  # also in the float replay: a real Future would block the single thread this harness runs in
+        try:
+            return _scenario(V, A)
+        finally:
+            A.Future = old_future
+
+    def _scenario(V, A):
+        rec = asyncsym.Recorder()
+        sup = asyncsym.mk_node(V, rec, "sup", 10, phase=V.grid("phase", lo=0, hi=1), record_setting=cfg["record_setting"])
+        asyncsym.real_reset_start(V, [sup])
+        sync = A._Synchronizer(sup)
+        sync.reset()
+        g = object.__new__(A.AsyncGraph)
+        g._async_nodes, g.supervisor, g._synchronizer, g._initial_step = {"sup": sup}, sup.node, sync, False
+
+        def user_thread(fut):
+            obs_ss = sync.observation.popleft().result()
+
+            class GS:
+                step_state = {"sup": obs_ss}
+            g.run_supervisor(GS)
+
+        n_exec = cfg["executed"]
+        FakeFuture.hook = user_thread
+        try:
+            for _ in range(n_exec):
+                sup.q_tick.append(True)
+                sup.push_scheduled_ts()
+        finally:
+            FakeFuture.hook = None
+        sync._must_reset = True  # what stop()/reset() does to the pending action
+        for _ in range(cfg["pending"]):
+            sup.q_tick.append(True)
+            sup.push_scheduled_ts()
+        rs = sup._record_steps
+        return {
+            "while stopping, the record holds the executed supervisor steps plus exactly one pending step, with or without output recording":
+                [r.seq for r in rs] == list(range(n_exec + 1)) and len(sup.node.step_calls) == n_exec,
+            "twin:steps executed": len(sup.node.step_calls) == n_exec and n_exec >= 1,
+        }
+
+    return scenario
+
+
 def worker_async(cfg, tier):
     import rex.asynchronous as A
     from props.c03 import _to_obs
     from vlib import pysym
 
+    if cfg.get("scen") == "skipped":
+        from props.c06 import FakeFuture
+        res, stats = pysym.run_scenario(scen_async_skipped(cfg), [A], extra_patch={"rex.asynchronous": {"onp": pysym.FakeNumpy(A.onp), "Future": FakeFuture}})
+        keymap = {r["name"]: "async-record-skipped" for r in res}
+        whatmap = {r["name"]: "threaded runtime: with output recording off, every pending supervisor step after stop()/reset() is appended to the record as if it had run (rows for steps that never executed)" for r in res}
+        obs, stats = _to_obs(res, stats, cfg, "async-record", keymap, whatmap)
+        return obs
     if cfg.get("scen") == "selrecord":
         from props import c03
         scen = c03.scen_selection(cfg)  # every message a step consumed is recorded, however small max_records is (truncation is by step)
@@ -389,6 +449,7 @@ def async_configs(tier):
     # the graph state handed to reset() carries its own eps field (0 from init(), or a user's starting_eps), the runtime counts episodes itself
     out.append(dict(rate=10, scheduling="frequency", advance=False, n_blocking=1, n_nonblocking=1, nticks=2, groups=True,
                     record_setting=dict(rng=True, inputs=True, state=True, output=True), max_records=20000, gs_eps=3))
+    out += [dict(scen="skipped", executed=2, pending=3, record_setting=dict(rng=True, inputs=True, state=True, output=o)) for o in (True, False)]
     out += [dict(scen="selrecord", nq=3, k=3, window=2, blocking=False, max_records=1), dict(scen="selrecord", nq=3, k=2, window=1, blocking=True, max_records=2, prerecorded=2),
             dict(scen="selrecord", nq=2, k=2, window=1, blocking=False, max_records=5, prerecorded=4)]
     out += [dict(scen="getrecord", seq_in=[0, 0, 1, 2, 2, 3], last=1), dict(scen="getrecord", seq_in=[0, 1, 2], last=2), dict(scen="getrecord", seq_in=[0, 1, 2], last=0)]
